@@ -362,6 +362,81 @@ def one_run(params):
         sim.close()
 
 
+def scn_staleshake(params):
+    """Handshake against the model server on a path that delivers stale datagrams: every answer arrives a second time while the
+    client is already waiting for the answer to its next query, and answers under the id 0 or under the previous query's id -
+    saying something else (VNAK, LNAK, BADIP, a wrong codec name) - arrive just before the real ones.  None of them answers the
+    outstanding query, so the handshake ends exactly as it does on the same path without them (twin run)."""
+    seed = params["seed"]
+    out = {"violations": [], "nontrivial": [], "stats": {"staleshake_runs": 1}, "evaluations": 0, "sets": {}}
+
+    def run(stale):
+        rng = random.Random(params["rseed"])
+        sim = scen.Sim("c06s-%d-%d" % (params["idx"], int(stale)), seed)
+        try:
+            k = sim.k
+            st = {"prev": None, "n": 0, "sent": 0}
+
+            def hook(step, q, default, src):
+                if q is None or default is None or isinstance(default, list):
+                    return default
+                st["n"] += 1
+                if stale:
+                    L = k.latency_us
+                    if st["prev"] is not None and rng.random() < 0.8:
+                        # the previous answer once more, arriving after this query left and before its answer does
+                        k.transmit((hs.ip, 53), src, st["prev"], delay_us=rng.choice([L // 2, L - 1]))
+                        st["sent"] += 1
+                    if rng.random() < 0.7:
+                        # something else under an id that is not the outstanding one (0; the previous query's)
+                        wrong = rng.choice([b"VNAK\x00\x00\x05\x02\x00", b"LNAK", b"BADIP", b"Base128", b"Raw", b"Immediate", b"\x00\x02", b"BADCODEC", b"VFUL\x00\x00\x00\x10\x00"])
+                        bad_id = 0 if (st["n"] == 1 or rng.random() < 0.4) else st.get("prev_id", 0)
+                        if bad_id != q.id:
+                            try:
+                                enc = hs.downenc if q.qd[0][1] not in (proto.T_NULL, proto.T_PRIVATE) else "T"
+                                k.transmit((hs.ip, 53), src, mserver.build_answer(q, wrong, enc, qid=bad_id), delay_us=rng.choice([L // 2, L - 1]))
+                                st["sent"] += 1
+                            except ValueError:
+                                pass
+                st["prev"] = default if isinstance(default, (bytes, bytearray)) else None
+                st["prev_id"] = q.id
+                return default
+
+            hs = mserver.HandshakeServer(scen.SERVER_IP, sim.domain, sim.password, hook=hook, userid=params["userid"])
+            k.add_actor(hs.ip, hs)
+            c = sim.client("cli0", "10.53.1.1", scen.SERVER_IP, client_opts(params))
+            sim.run_until(lambda: sim.client_in_tunnel(c) or not c.alive(), 200 * US)
+            h = sim.health(c)
+            return {"health": h.split(":")[0] + (":" + h.split(":")[1] if h.startswith("exit") else ""), "tunnel": bool(sim.client_in_tunnel(c)),
+                    "downenc": hs.downenc, "up": hs.upcodec.name, "frag": hs.fragsize, "lazy": hs.lazy,
+                    "qtype": hs.steps[-1][1] if hs.steps else None, "stale_sent": st["sent"], "full_health": h,
+                    "stderr": k.stderr_text(c, 800)}
+        finally:
+            sim.close()
+
+    a = run(False)
+    b = run(True)
+    out["evaluations"] = b["stale_sent"]
+    out["stats"]["stale_datagrams_sent"] = b["stale_sent"]
+    for r_ in (a, b):
+        if r_["full_health"].startswith("sanitizer") or r_["full_health"].startswith("signal") or r_["full_health"] == "stalled":
+            out["violations"].append(("C06:%s" % r_["full_health"].split(":", 1)[-1], "the client died during a handshake with stale datagrams (%s)" % r_["full_health"], {"seed": seed, "params": params}))
+            return out
+    keys = ("health", "tunnel", "downenc", "up", "frag", "lazy", "qtype")
+    if not a["tunnel"]:
+        out["inconclusive"] = "twin-handshake-failed"
+        return out
+    diff = [kk for kk in keys if a[kk] != b[kk]]
+    if diff:
+        out["violations"].append(("C06:stale-handshake-datagram-taken:" + diff[0],
+                                  "with %d stale datagrams (second copies of earlier answers, answers under id 0 or the previous id) the handshake ended differently: %s"
+                                  % (b["stale_sent"], ", ".join("%s %r -> %r" % (kk, a[kk], b[kk]) for kk in diff)),
+                                  {"seed": seed, "params": params, "stderr_with_stale": b["stderr"]}))
+    elif b["stale_sent"] >= 5:
+        out["nontrivial"].append(repr(("staleshake", params["qtype"], params.get("downenc"), a["up"])))
+    return out
+
+
 def _dummy_q():
     return proto.parse_msg(proto.build_query(1, [b"paaaa", b"t", b"example", b"com"], proto.T_NULL))
 
@@ -457,6 +532,12 @@ def run(ctx):
     res.min_nontrivial = 0 if ctx.replay else ctx.pick(150, 600)
     with core.Build() as b:
         simrun.run_scenarios(res, b, scn, plist, jobs=ctx.jobs)
+        if not ctx.replay:
+            srng = random.Random(ctx.seed * 7001 + 17)
+            slist = [{"idx": 700000 + i, "seed": ctx.seed * 100000 + 70000 + i, "rseed": srng.getrandbits(32), "qtype": QTS[i % len(QTS)],
+                      "downenc": srng.choice([None, None, "base32", "base64", "base128"]), "noraw": True, "lazy0": srng.random() < 0.3,
+                      "m": srng.choice([None, None, 100]), "M": None, "userid": srng.choice([0, 3, 15])} for i in range(ctx.pick(28, 1500))]
+            simrun.run_scenarios(res, b, scn_staleshake, slist, jobs=ctx.jobs)
         if not ctx.replay:
             # a whole cycle of the client's 16-bit query id counter (Engine B, unit/idring.c: client.c as text): the ids the
             # client remembers are the ids that left; answers under any other id (0, four queries back, neighbours, the next
